@@ -35,6 +35,7 @@ pub struct Scn {
 pub struct C01;
 
 pub const N_CFG: usize = 8;
+const N_SHAPES: usize = 22;
 const QNAMES: &[&str] = &[
     "www.example.", "example.", "WwW.ExAmPlE.", "nosuch.example.", "x.wild.example.", "alias.example.", "chain1.example.", "deep.sub.example.", "big.example.",
     "badns.example.", "badmx.example.", "badcname.example.", "badsrv.example.", "bada.example.", "badsoa.test.", "x.nosoa.test.", "nosoa.test.", "unloaded.test.", "failed.test.", "www.elsewhere.", ".",
@@ -53,8 +54,8 @@ fn long_name(tag: u8) -> wire::Name {
 
 /// The request corpus: index -> message (before any fault).
 pub fn base_message(i: usize) -> Vec<u8> {
-    let shape = i % 20;
-    let v = i / 20;
+    let shape = i % N_SHAPES;
+    let v = i / N_SHAPES;
     let qn = wire::name(QNAMES[(v * 7 + shape) % QNAMES.len()]);
     let qt = QTYPES[(v * 3 + shape) % QTYPES.len()];
     let id = 0x4000 + i as u16;
@@ -147,6 +148,16 @@ pub fn base_message(i: usize) -> Vec<u8> {
             v
         }
         18 => sign(&wire::query_full(id, &qn, qt, wire::C_IN, 0, Some(1232)), wire::name("K.Example."), Alg::Sha256.name(), Some(10 + v % 23)),
+        // answers larger than the negotiated size: big RRsets with a sweep of advertised sizes
+        20 | 21 => {
+            let (n, t) = [("big.example.", wire::T_TXT), ("many.example.", wire::T_A), ("many.example.", wire::T_ANY), ("big.example.", wire::T_ANY)][v % 4];
+            let q = wire::query_full(id, &wire::name(n), t, wire::C_IN, 0, Some(512 + 41 * (v as u16 % 40)));
+            if shape == 21 {
+                sign(&q, wire::name("k.example."), Alg::Sha256.name(), None)
+            } else {
+                q
+            }
+        }
         _ => wire::query_full(id, &qn, 250 + (v % 6) as u16, wire::C_IN, 0x0200, None),
     }
 }
@@ -180,6 +191,9 @@ fn rich_zone() -> Arc<quandary::db::HashMapTreeZone> {
         v.extend(wire::name_wire("www.example."));
         v
     });
+    for i in 0..100u8 {
+        z.add("many.example.", wire::T_A, 60, &[10, 1, i / 50, i]);
+    }
     z.finish()
 }
 /// A zone whose stored RDATA is itself malformed (the zone API accepts any octets).
@@ -287,7 +301,7 @@ impl Prop for C01 {
         format!("{file}|{masked}")
     }
     fn rule() -> String {
-        format!("one execution = one (request shape, server configuration) pair: {} shapes quick / 400 thorough (plain, EDNS with options and odd versions, TSIG-signed with known/unknown keys, truncated MACs and maximal 255-octet key/algorithm names, extra records in every section, compressed and mixed-case names, opcodes 0-15, QTYPE ANY/AXFR/IXFR/meta, QCLASS ANY/CH, NOTIFY/UPDATE-shaped, two questions, misplaced OPT/TSIG, header only) x {} configurations (empty catalog; loaded/NotYetLoaded/FailedToLoad entries; zones with malformed stored RDATA, missing or malformed SOA; key sets; RRL slip 1/2; payload 512/1232/65535); per pair, exhaustively: truncation to every length, at every offset substitution by 10 values, each header count set to 0/+1/0xffff, junk of 1/2/11/300 octets appended, tail duplicated, both transports; then seeded random pairs of those faults. Every pair is non-trivial and distinct by construction", 60, N_CFG)
+        format!("one execution = one (request shape, server configuration) pair: {} shapes quick / 400 thorough (plain, EDNS with options and odd versions, big RRsets with swept payload sizes, TSIG-signed with known/unknown keys, truncated MACs and maximal 255-octet key/algorithm names, extra records in every section, compressed and mixed-case names, opcodes 0-15, QTYPE ANY/AXFR/IXFR/meta, QCLASS ANY/CH, NOTIFY/UPDATE-shaped, two questions, misplaced OPT/TSIG, header only) x {} configurations (empty catalog; loaded/NotYetLoaded/FailedToLoad entries; zones with malformed stored RDATA, missing or malformed SOA; key sets; RRL slip 1/2; payload 512/1232/65535); per pair, exhaustively: truncation to every length, at every offset substitution by 10 values, each header count set to 0/+1/0xffff, every RR's RDLENGTH set to 0..80, the advertised EDNS payload size set to every value 0..1400 (+ large ones), junk of 1/2/11/300 octets appended, tail duplicated, both transports; then seeded random pairs of those faults. Every pair is non-trivial and distinct by construction", 60, N_CFG)
     }
     fn assumptions() -> Vec<String> {
         vec![
@@ -445,6 +459,30 @@ fn run(scn: &Scn) {
             let mut j = base.clone();
             j.extend_from_slice(&base[k..]);
             h.call(&j, tcp, &format!("tail from {k} duplicated"));
+        }
+    }
+    // 16-bit fields swept over a dense range: the advertised EDNS payload size (response
+    // truncation lands on every alignment) and every RR's RDLENGTH
+    if let Ok(m) = wire::decode(&base) {
+        for tcp in [false, true] {
+            for rr in m.all_rrs() {
+                let rdlen_at = rr.rdata_off - 2;
+                let mut msg = base.clone();
+                for v in 0..=80u16 {
+                    simrt::count_fault(Fault::WireSubstitute);
+                    msg[rdlen_at..rdlen_at + 2].copy_from_slice(&v.to_be_bytes());
+                    h.call(&msg, tcp, &format!("RDLENGTH at {rdlen_at} = {v}"));
+                }
+                if rr.rtype == wire::T_OPT && !tcp {
+                    let class_at = rr.rdata_off - 8;
+                    let mut msg = base.clone();
+                    for v in (0..=1400u16).chain([4095, 4096, 16_383, 65_534, 65_535]) {
+                        simrt::count_fault(Fault::WireSubstitute);
+                        msg[class_at..class_at + 2].copy_from_slice(&v.to_be_bytes());
+                        h.call(&msg, tcp, &format!("advertised payload size = {v}"));
+                    }
+                }
+            }
         }
     }
     // seeded random pairs of faults
